@@ -135,7 +135,7 @@ def merge_case(ctx, case):
         else:
             ma, va = chunk_stats(a)
         if s == N:
-            mb, vb = 0.0, 0.0  # an empty right part (C13_merge_empty_right): whatever is reported for it is ignored
+            mb, vb = 0.0, 0.0  # an empty right part, described like the empty running state (C13_merge_empty_right)
             ctx.count("merge_split_right_empty")
         else:
             mb, vb = chunk_stats(b)
@@ -146,12 +146,6 @@ def merge_case(ctx, case):
                    detail={"impl": [float(r[0]), float(r[1]), r[2]], "expected": [float(M), None if V is None else float(V), N]},
                    sig="merge/oracle", theorem=THEOREMS["merge"])
         ctx.count("merge_split")
-        if s == N:
-            r3 = _update_statistics(ma, va, len(a), 41.5, -3.25, 0)
-            ctx.oracle("what is reported for an empty right chunk is ignored",
-                       r3[2] == r[2] and stat_close(r3[0], r[0], scale, 1e-12) and stat_close(r3[1], r[1], scale * scale, 1e-12), sub,
-                       detail={"zeros": list(map(float, r[:2])), "junk": list(map(float, r3[:2]))}, sig="merge/empty-right-ignored",
-                       theorem=THEOREMS["merge"])
         # a one-value chunk's reported variance must not matter
         if len(a) == 1 or len(b) == 1:
             r2 = _update_statistics(ma, 123.25 if len(a) == 1 else va, len(a), mb, -7.5 if len(b) == 1 else vb, len(b))
@@ -193,21 +187,23 @@ def merge_case(ctx, case):
 
 
 def formula_case(ctx, case):
-    """the merge formula on arbitrary small-integer operands (not statistics of any dataset): every float operation
-    is exact up to the final correctly-rounded divisions, so model and code must agree bit for bit"""
+    """the merge formula on arbitrary small-integer operands (not statistics of any dataset): model and code compute the same real
+    number; compared with a relative tolerance of 1e-12 (NOT bit for bit: an algebraically equal re-arrangement of the formula is as good)"""
     a = case["args"]
     ctx.case(case, nontrivial=a[2] > 0 and a[5] > 0, sample={"part": "formula", "args": a})
     ctx.count("formula_case")
+    if a[2] == 0 and a[5] == 0:
+        return  # nothing merged with nothing: never happens in a statistics run, the returned placeholder is not constrained by the property
     va = float("nan") if a[1] is None else float(a[1])
     vb = float("nan") if a[4] is None else float(a[4])
     r = _update_statistics(float(a[0]), va, a[2], float(a[3]), vb, a[5])
     if ctx.driver is not None:
         m = ctx.driver.call("c13.update", avg_a=f2b(a[0]), var_a=f2b(va), len_a=a[2], avg_b=f2b(a[3]), var_b=f2b(vb), len_b=a[5])
-        canon = lambda x: "nan" if math.isnan(float(x)) else f2b(float(x) + 0.0)  # noqa: E731
-        ctx.point("formula", "aux", [canon(r[0]), canon(r[1]), r[2]],
-                  [canon(unbits([m["mean"]])[0]), canon(unbits([m["variance"]])[0]), m["n"]], case, exact=True, sig="formula/exact")
-    if a[2] == 0 and a[5] == 0:
-        ctx.oracle("both empty -> (0.0, 0.0, 0)", tuple(r) == (0.0, 0.0, 0), case, sig="formula/both-empty")
+        ms = max(1.0, abs(float(a[0])), abs(float(a[3])))
+        vs = max(1.0, abs(va) if not math.isnan(va) else 0.0, abs(vb) if not math.isnan(vb) else 0.0, (float(a[3]) - float(a[0])) ** 2)
+        ctx.point("formula.mean", "aux", [r[0]], unbits([m["mean"]]), case, scale=ms, rtol=1e-12, atol=1e-12, sig="formula/mean")
+        ctx.point("formula.variance", "aux", [r[1]], unbits([m["variance"]]), case, scale=vs, rtol=1e-12, atol=1e-12, sig="formula/variance")
+        ctx.point("formula.len", "aux", r[2], m["n"], case, exact=True, sig="formula/len")
 
 
 # ---------------------------------------------------------------- part B: statistics / System.statistics
@@ -376,7 +372,7 @@ def stats_case(ctx, case):
         r, err, calls = record_run(st, user, lambda u: sysobj.statistics(st, initial_state=u, **kwargs))
         sys_keys = None if r is None else list(r.keys())
         if r is not None:
-            ctx.oracle("System.statistics returns one entry per distinct name, in order of first occurrence", list(r.keys()) == keys, case,
+            ctx.oracle("System.statistics returns one entry per distinct name", sorted(r.keys()) == sorted(keys), case,
                        detail={"impl": list(r.keys()), "expected": keys}, sig="system/keys", theorem=THEOREMS["keys"])
         runs.append((None if r is None else [r.get(nm) for nm in names], err, calls, list(range(len(obs))), user, backing))
     else:
@@ -457,9 +453,9 @@ def stats_case(ctx, case):
                                         and var_close(d["variance"], V, sc) and se_close(d["std_error"], V, N, sc))
                 # "each observable gets the result it would get alone on the same chain states": when it does not, and a LATER observable
                 # of the set carries the same name with different per-sample values, this is the known merge of same-named observables
-                merged = system and any(names[k] == names[oi] and vals[k] != vals[j] for k in range(oi + 1, len(obs)))
+                merged = system and any(k != oi and names[k] == names[oi] and vals[k] != vals[j] for k in range(len(obs)))
                 ctx.oracle("result == one-pass statistics of every drawn sample" if not (merged and not ok) else
-                           "System: an observable sharing its name with a later one gets the later one's statistics", bool(ok), case,
+                           "System: observables sharing a name are merged into one entry (this one does not get its own statistics)", bool(ok), case,
                            detail={"impl": None if d is None else {k: float(x) for k, x in d.items()},
                                    "expected": [float(M), None if V is None else float(V), N], "obs": oi, "names": names},
                            sig=(SIG_MERGED if merged else f"{sig0}/one-pass"), theorem=THEOREMS["system"] if system else THEOREMS["stream"])
@@ -485,10 +481,13 @@ def stats_case(ctx, case):
                 if system:
                     # the dictionary: one entry per distinct name; the entry of a name is compared with the one-pass statistics of the LAST
                     # observable given with that name (C13_system_dict) and with the model's streaming result for that entry
-                    ctx.point("dictionary keys", "property", sys_keys, mres["names"], case,
+                    ctx.point("dictionary keys (as a set)", "property", sorted(sys_keys), sorted(mres["names"]), case,
                               exact=True, theorem=THEOREMS["keys"], sig="system/keys")
+                    # names given several times with DIFFERENT values: which of them survives is not constrained by the property (the merge
+                    # itself is the finding reported above) - those entries are not compared with the model
+                    conflict = {nm for nm in keys if any(vals[k] != vals[last[nm]] for k in range(len(obs)) if names[k] == nm)}
                     entries = [(r[last[nm]], last[nm], m["onepass"][last[nm]], mres["stats"][q]) for q, nm in enumerate(mres["names"])
-                               if nm in last and r[last[nm]] is not None]
+                               if nm in last and r[last[nm]] is not None and nm not in conflict]
                 else:
                     entries = [(r[0], idxs[0], m["onepass"][0], mres["stats"])]
                 for (d, oi, m_one, m_stream) in entries:
@@ -543,7 +542,7 @@ def from_samples_case(ctx, case):
         sc = max(1.0, max(abs(x) for x in v))
         ok = d is not None and (d["num_samples"] == N == B and stat_close(d["mean"], M, sc, 1e-9) and var_close(d["variance"], V, sc)
                                 and se_close(d["std_error"], V, N, sc))
-        merged = system and any(names[k] == names[oi] and vals[k] != v for k in range(oi + 1, len(obs)))
+        merged = system and any(k != oi and names[k] == names[oi] and vals[k] != v for k in range(len(obs)))
         ctx.oracle(f"{label} == one-pass statistics of the observable's values on the batch", bool(ok), case,
                    detail={"impl": None if d is None else {k: float(x) for k, x in d.items()},
                            "expected": [float(M), None if V is None else float(V), N], "obs": oi, "names": names},
@@ -560,7 +559,11 @@ def from_samples_case(ctx, case):
                   theorem=th, sig=f"{sig0}/model")
         ctx.point(f"{label}.num_samples", "property", d["num_samples"], mm["n"], case, exact=True, theorem=th, sig=f"{sig0}/model")
 
-    exp_err = "ZeroDivisionError" if (B == 0 and len(obs) > 0) else None
+    def empty_ok(d):
+        """statistics of NOTHING: the property does not say what they are - the library raises ZeroDivisionError (modelled); a result with
+        num_samples == 0 and undefined (nan) statistics would be as good"""
+        return d["num_samples"] == 0 and all(math.isnan(float(d[k])) for k in ("mean", "variance", "std_error"))
+
     if system:
         sysobj = System(*obs)
         r, err = None, None
@@ -568,23 +571,30 @@ def from_samples_case(ctx, case):
             r = sysobj.statistics_from_samples(st, t)
         except Exception as e:  # noqa: BLE001
             err = type(e).__name__
-        ctx.oracle("System.statistics_from_samples: ZeroDivisionError exactly for an empty batch", err == exp_err, case,
-                   detail={"impl": err, "expected": exp_err}, sig=f"{sig0}/error-oracle", theorem="C13_fromSamples_empty")
-        if err is None and exp_err is None:
-            ctx.oracle("System.statistics_from_samples returns one entry per distinct name, in order of first occurrence",
-                       list(r.keys()) == keys, case, detail={"impl": list(r.keys()), "expected": keys}, sig=f"{sig0}/keys",
+        if B == 0:
+            ctx.oracle("System.statistics_from_samples on an empty batch: ZeroDivisionError (or undefined statistics with num_samples 0)",
+                       err == "ZeroDivisionError" or (err is None and all(empty_ok(d) for d in r.values())), case,
+                       detail={"impl": err if err else {k: {kk: float(x) for kk, x in d.items()} for k, d in r.items()}},
+                       sig=f"{sig0}/empty-batch", theorem="C13_fromSamples_empty")
+        else:
+            ctx.oracle("System.statistics_from_samples does not raise on a non-empty batch", err is None, case, detail={"impl": err},
+                       sig=f"{sig0}/error-oracle", theorem=THEOREMS["sysfrom"])
+        if err is None and B > 0:
+            ctx.oracle("System.statistics_from_samples returns one entry per distinct name",
+                       sorted(r.keys()) == sorted(keys), case, detail={"impl": list(r.keys()), "expected": keys}, sig=f"{sig0}/keys",
                        theorem=THEOREMS["keys"])
             for oi in range(len(obs)):
                 check(r.get(names[oi]), oi, "System.statistics_from_samples")
-        if ctx.driver is not None:
+        if ctx.driver is not None and (B > 0 or err is not None):
             m = ctx.driver.call("c13.system_from_samples", names=names, values=[bits(v) for v in vals])
             ctx.point("System.statistics_from_samples: error kind", "property", err, m.get("error"), case, exact=True,
                       sig=f"{sig0}/error-kind", theorem="C13_fromSamples_empty")
             if err is None and "error" not in m:
-                ctx.point("System.statistics_from_samples: keys", "property", list(r.keys()), m["names"], case, exact=True,
+                ctx.point("System.statistics_from_samples: keys (as a set)", "property", sorted(r.keys()), sorted(m["names"]), case, exact=True,
                           sig=f"{sig0}/keys", theorem=THEOREMS["keys"])
+                conflict = {nm for nm in keys if any(vals[k] != vals[last[nm]] for k in range(len(obs)) if names[k] == nm)}
                 for q, nm in enumerate(m["names"]):
-                    if nm in r and nm in last:
+                    if nm in r and nm in last and nm not in conflict:
                         points(r[nm], m["stats"][q], last[nm], f"System.statistics_from_samples[{q}]")
     else:
         for oi, o in enumerate(obs):
@@ -594,12 +604,18 @@ def from_samples_case(ctx, case):
                 d = o.statistics_from_samples(st, t2)
             except Exception as e:  # noqa: BLE001
                 err = type(e).__name__
-            ctx.oracle("statistics_from_samples: ZeroDivisionError exactly for an empty batch", err == exp_err, case,
-                       detail={"impl": err, "expected": exp_err, "obs": oi}, sig=f"{sig0}/error-oracle", theorem="C13_fromSamples_empty")
+            if B == 0:
+                ctx.oracle("statistics_from_samples on an empty batch: ZeroDivisionError (or undefined statistics with num_samples 0)",
+                           err == "ZeroDivisionError" or (err is None and empty_ok(d)), case,
+                           detail={"impl": err if err else {k: float(x) for k, x in d.items()}, "obs": oi}, sig=f"{sig0}/empty-batch",
+                           theorem="C13_fromSamples_empty")
+            else:
+                ctx.oracle("statistics_from_samples does not raise on a non-empty batch", err is None, case, detail={"impl": err, "obs": oi},
+                           sig=f"{sig0}/error-oracle", theorem=THEOREMS["from"])
             ctx.oracle("statistics_from_samples leaves the batch unchanged", bool(torch.equal(t2, t)), case, sig=f"{sig0}/no-mutation")
-            if err is None and exp_err is None:
+            if err is None and B > 0:
                 check(d, oi, "statistics_from_samples")
-            if ctx.driver is not None:
+            if ctx.driver is not None and (B > 0 or err is not None):
                 m = ctx.driver.call("c13.from_samples", xs=bits(vals[oi]))
                 ctx.point("statistics_from_samples: error kind", "property", err, m.get("error"), case, exact=True, sig=f"{sig0}/error-kind",
                           theorem="C13_fromSamples_empty")
@@ -761,12 +777,14 @@ def gen_cases(ctx, thorough):
         N = rng.randrange(3, 10)
         yield {"part": "merge", "xs": [off + float(rng.randrange(-6, 7)) for _ in range(N)]}
         yield {"part": "merge", "xs": [off + round(rng.gauss(0, 2), 2) for _ in range(N)]}
-    yield {"part": "formula", "args": [0, 0, 0, 0, 0, 0]}
     yield {"part": "formula", "args": [3, None, 0, 4, None, 1]}
     for _ in range(300 if thorough else 40):
         la, lb = rng.randrange(0, 6), rng.randrange(0, 6)
-        yield {"part": "formula", "args": [rng.randrange(-9, 10), None if (la == 1 and rng.random() < 0.5) else rng.randrange(0, 20), la,
-                                           rng.randrange(-9, 10), None if (lb == 1 and rng.random() < 0.5) else rng.randrange(0, 20), lb]}
+        # operands as a statistics run can produce them: an empty chunk is (0, 0) [the initial running state], a one-value chunk has an
+        # undefined (nan) variance [torch.var_mean], otherwise any mean and any variance >= 0
+        opa = [0, 0, 0] if la == 0 else [rng.randrange(-9, 10), None if la == 1 else rng.randrange(0, 20), la]
+        opb = [0, 0, 0] if lb == 0 else [rng.randrange(-9, 10), None if lb == 1 else rng.randrange(0, 20), lb]
+        yield {"part": "formula", "args": opa + opb}
     # part B
     pairs = [(ns, nc) for ns in range(1, 10) for nc in range(0, 11)]
     if not thorough:
